@@ -10,6 +10,7 @@ A property module provides
 import fnmatch
 import json
 import multiprocessing as mp
+import contextlib
 import os
 import sys
 import time
@@ -149,7 +150,7 @@ class Collector:
 
     def check(self, case, run_case):
         """Run one enumerated case (no shrinking)."""
-        obs = run_case(case)
+        obs = run_traced(run_case, case)
         self.add(case, obs)
         for bucket, msg in self.note_handled(case, obs):
             self.record_fail(bucket, case, msg)
@@ -175,6 +176,53 @@ class Collector:
 
 class _Fail(Exception):
     pass
+
+
+@contextlib.contextmanager
+def tracing(mode=True):
+    """websocket.enableTrace(True) for the duration of one case (the diagnostic code paths run; nothing is printed),
+    or, with mode "quiet", the library's logger silenced altogether (an application that wants no log output)."""
+    import logging
+
+    import websocket
+
+    h = logging.NullHandler()
+    lg = logging.getLogger("websocket")
+    old_level = lg.level
+    if mode == "quiet":
+        lg.setLevel(logging.CRITICAL + 10)
+    else:
+        websocket.enableTrace(True, handler=h)
+    try:
+        yield
+    finally:
+        websocket.enableTrace(False)
+        lg.removeHandler(h)
+        lg.setLevel(old_level)
+
+
+def run_traced(run_case, case):
+    """Every property's cases may carry "trace": True - diagnostics switched on must not change anything that is judged."""
+    if isinstance(case, dict) and case.get("trace"):
+        with tracing(case["trace"]):
+            obs = run_case(case)
+        if isinstance(obs.cls, tuple) and not any(str(c).startswith("trace:") for c in obs.cls):
+            obs.cls = obs.cls + (f"trace:{'quiet' if case['trace'] == 'quiet' else 1}",)
+        return obs
+    return run_case(case)
+
+
+def with_trace(strategy):
+    """Adds the diagnostics dimension to a strategy of dict cases (default in 6 of 8 cases, trace on in 1, logger silenced in 1; shrinks to default)."""
+    from hypothesis import strategies as st
+
+    def mix(t):
+        c, k = t
+        if k >= 6 and isinstance(c, dict) and "trace" not in c:
+            return dict(c, trace=True if k == 7 else "quiet")
+        return c
+
+    return st.tuples(strategy, st.integers(0, 7)).map(mix)
 
 
 def _freeze(o):
@@ -225,7 +273,7 @@ def hyp_run(coll, strategy, run_case, seed, max_examples, shrink_cap=None, max_r
         def body(case):
             if st["bucket"] is None:
                 st["gen"] += 1
-                obs = run_case(case)
+                obs = run_traced(run_case, case)
                 coll.add(case, obs)
                 new = coll.note_handled(case, obs)
                 if new:
@@ -240,7 +288,7 @@ def hyp_run(coll, strategy, run_case, seed, max_examples, shrink_cap=None, max_r
                 if codec.dumps(case) == st["best_key"]:
                     raise _Fail(st["bucket"])
                 return
-            obs = run_case(case)
+            obs = run_traced(run_case, case)
             for bucket, msg in obs.fails:
                 if bucket == st["bucket"]:
                     key = codec.dumps(case)
@@ -248,7 +296,7 @@ def hyp_run(coll, strategy, run_case, seed, max_examples, shrink_cap=None, max_r
                         st["best"], st["best_key"] = (case, msg), key
                     raise _Fail(bucket)
 
-        test = hypothesis.seed(seed * 7919 + rnd)(hyp_settings(remaining)(given(strategy)(body)))
+        test = hypothesis.seed(seed * 7919 + rnd)(hyp_settings(remaining)(given(with_trace(strategy))(body)))
         try:
             test()
         except _Fail:
@@ -489,7 +537,7 @@ def replay(modname, path):
     mod = importlib.import_module(modname)
     with open(path) as f:
         body = codec.loads(f.read())
-    obs = mod.run_case(body["case"])
+    obs = run_traced(mod.run_case, body["case"])
     known = Known(mod.ID)
     rc = 0
     for bucket, msg in obs.fails:
